@@ -1,2 +1,3 @@
 import DinoGen.Tableaux
 import DinoGen.ForcingConsts
+import DinoGen.SHCert
